@@ -438,9 +438,10 @@ Section Hist.
     step st (Authorize r q w) = (fst (authorize r st q), deliver w (snd (authorize r st q))).
   Proof. cbn [step]. destruct (authorize r st q); reflexivity. Qed.
 
-  Lemma step_callback r st k f w :
-    step st (Callback r k f w) = (fst (callback st k f), deliver w (snd (callback st k f))).
-  Proof. cbn [step]. destruct (callback st k f); reflexivity. Qed.
+  Lemma step_callback r st ids f w :
+    step st (Callback r ids f w) =
+    (fst (callback st (cb_id ids) f), deliver w (snd (callback st (cb_id ids) f))).
+  Proof. cbn [step]. destruct (callback st (cb_id ids) f); reflexivity. Qed.
 
   Lemma step_authorize_shape r st q w : authorize_shape st q (step st (Authorize r q w)).
   Proof.
@@ -455,13 +456,51 @@ Section Hist.
       right. split; [assumption|]. rewrite El. apply deliver_login.
   Qed.
 
-  Lemma step_callback_shape r st k f w : callback_shape st k (step st (Callback r k f w)).
+  Lemma step_callback_shape r st ids f w : callback_shape st (cb_id ids) (step st (Callback r ids f w)).
   Proof.
-    rewrite step_callback. pose proof (callback_has_shape st k f) as [Hs Hx].
+    rewrite step_callback. pose proof (callback_has_shape st (cb_id ids) f) as [Hs Hx].
     unfold callback_shape. cbn [fst snd]. split; [assumption|].
     destruct Hx as [Hp|[n [s [Hk [Hn Hsf]]]]].
     - left. apply deliver_page, Hp.
     - right. exists n, s. repeat (split; [assumption|]). apply deliver_success, Hsf.
+  Qed.
+
+  (* ---- which request a callback answers for, wherever its id parameter travels ---- *)
+  Lemma success_points_to s x : success_from s x -> points_to info s x = true.
+  Proof.
+    intros [[Hp|[fr [code [cq [cf [Hk ->]]]]]]|[->|[->|[t [Ht ->]]]]].
+    - destruct x; cbn in Hp; try discriminate. reflexivity.
+    - cbn. rewrite Hk. apply String.eqb_refl.
+    - reflexivity.
+    - reflexivity.
+    - cbn. rewrite Ht. apply String.eqb_refl.
+  Qed.
+
+  (* a callback sends the user agent somewhere only for the request that the FIRST value of its id
+     parameter (form body values, then URL query values) names, and then to that request's stored URI *)
+  Theorem callback_addressed st r ids f w :
+    let x := snd (step st (Callback r ids f w)) in
+    no_redirect x = true \/
+    exists n s, hd_error (cb_body ids ++ cb_query ids) = Some (Some n) /\ nth_error st n = Some s /\
+                points_to info s x = true.
+  Proof.
+    cbn zeta. pose proof (step_callback_shape r st ids f w) as [_ [Hp|[n [s [Hk [Hn Hsf]]]]]].
+    - left. destruct (snd (step st (Callback r ids f w))); cbn in Hp; try discriminate. reflexivity.
+    - right. exists n, s. repeat split; [|assumption|apply success_points_to, Hsf].
+      unfold cb_id, cb_all in Hk. destruct (cb_body ids ++ cb_query ids) as [|y l]; [discriminate|].
+      cbn. rewrite Hk. reflexivity.
+  Qed.
+
+  (* where the id travels (body, query, both, repeated; which router) does not matter beyond that *)
+  Theorem callback_placement st r r' a b f w :
+    cb_id a = cb_id b -> step st (Callback r a f w) = step st (Callback r' b f w).
+  Proof. intro H. rewrite !step_callback, H. reflexivity. Qed.
+
+  (* no id, or an empty first value: an error page, the store unchanged *)
+  Theorem callback_no_id st r ids f w :
+    cb_id ids = None -> exists status, step st (Callback r ids f w) = (st, OPage status "").
+  Proof.
+    intro H. rewrite step_callback, H. cbn [callback fst snd]. exists 400%N. destruct w; reflexivity.
   Qed.
 
   Lemma step_valid st o : valid_st st -> valid_st (fst (step st o)).
@@ -545,6 +584,20 @@ Section Hist.
   Lemma page_no_redirect x : is_page x = true -> no_redirect x = true.
   Proof. destruct x; cbn; congruence. Qed.
 
+  (* the id the handler reads is one of the ids the callback mentions *)
+  Lemma cb_id_mentioned ids n : cb_id ids = Some n -> In n (cb_mentioned ids).
+  Proof.
+    unfold cb_id, cb_mentioned. destruct (cb_all ids) as [|x l]; [discriminate|].
+    intros ->. cbn. left. reflexivity.
+  Qed.
+
+  Lemma resolve_In (created : list (string * list string * string)) ks n e :
+    In n ks -> nth_error created n = Some e -> In e (resolve created ks).
+  Proof.
+    intros Hi Hn. unfold resolve. apply in_flat_map. exists n. split; [assumption|].
+    rewrite Hn. left. reflexivity.
+  Qed.
+
   Theorem spec_hist_run ops : forall st created,
     valid_st st -> Forall2 R st created ->
     spec_hist glob info cs created ops (run st ops) = true.
@@ -570,21 +623,29 @@ Section Hist.
         constructor; [|constructor]. unfold R. cbn. auto.
     - cbn [step] in Es. inversion Es; subst. apply IH; [assumption|].
       apply update_nth_R; [|assumption]. intros s e H. exact H.
-    - pose proof (step_callback_shape r st k f w) as [Hs Hx]. rewrite Es in Hs, Hx. cbn [fst snd] in Hs, Hx.
+    - rename k into ids.
+      pose proof (step_callback_shape r st ids f w) as [Hs Hx]. rewrite Es in Hs, Hx. cbn [fst snd] in Hs, Hx.
       assert (HR' : Forall2 R st' created).
       { destruct Hs as [->|[n ->]]; [assumption | apply update_nth_R; [|assumption]].
         intros s e H. exact H. }
       rewrite (IH st' created Hst' HR'), andb_true_r.
-      destruct Hx as [Hp|[n [s [-> [Hn Hsf]]]]].
-      + destruct (match k with Some k0 => nth_error created k0 | None => None end) as [[[cid u] rt]|].
-        * rewrite (page_target_ok _ _ _ _ Hp), (page_not_login _ Hp). reflexivity.
+      destruct Hx as [Hp|[n [s [Hk [Hn Hsf]]]]].
+      + destruct (resolve created (cb_mentioned ids)) as [|[[cid u] rt] rs].
         * apply page_no_redirect, Hp.
+        * rewrite (page_not_login _ Hp), andb_true_r. cbn [existsb].
+          rewrite (page_target_ok _ _ _ _ Hp). reflexivity.
       + pose proof (Forall2_nth st created n HR) as Hnth. rewrite Hn in Hnth.
-        destruct (nth_error created n) as [[[cid cands] rt]|]; [|contradiction].
+        destruct (nth_error created n) as [[[cid cands] rt]|] eqn:Ec; [|contradiction].
         destruct Hnth as [H1 [H2 H3]]. cbn in H1, H2, H3. subst cid rt.
         unfold valid_st in Hst. rewrite Forall_forall in Hst.
         destruct (Hst s (nth_error_In _ _ Hn)) as [c [Hc Hv]].
-        rewrite (target_ok_success _ c cands s x Hc Hv H3 Hsf), (success_not_login s x Hsf). reflexivity.
+        pose proof (resolve_In created (cb_mentioned ids) n _ (cb_id_mentioned ids n Hk) Ec) as Hin.
+        assert (Hex : existsb (fun e => let '(cid, u, rt) := e in target_ok glob info cs cid u rt x)
+                              (resolve created (cb_mentioned ids)) = true).
+        { apply existsb_exists. exists (s_client s, cands, s_rt s). split; [exact Hin|].
+          exact (target_ok_success _ c cands s x Hc Hv H3 Hsf). }
+        destruct (resolve created (cb_mentioned ids)) as [|e rs]; [contradiction|].
+        rewrite Hex, (success_not_login s x Hsf). reflexivity.
   Qed.
 
   Lemma find_client_In id c : find_client cs id = Some c -> In c cs.
@@ -728,9 +789,13 @@ Definition ex_req (u : string) : areq :=
   {| q_client := "web"; q_uri := u; q_rt := "code"; q_mode := ""; q_malformed := false; q_reqobj := RP_None;
      q_prompt := P_Ok; q_noscope := false; q_hint_bad := false; q_fault := AF_None; q_dups := [] |}.
 
+(* callback id parameter: in the query only (what AuthCallbackURL builds), absent *)
+Definition cb_get (k : nat) : cbids := {| cb_body := []; cb_query := [Some k] |}.
+Definition cb_none : cbids := {| cb_body := []; cb_query := [] |}.
+
 Example C03_nonvacuous :
   run ex_glob ex_info true EK_Plain [ex_client] []
-      [Authorize Provider (ex_req "https://sub.example.com/cb") W_None; Login 0; Callback Legacy (Some 0) CF_None W_None;
+      [Authorize Provider (ex_req "https://sub.example.com/cb") W_None; Login 0; Callback Legacy (cb_get 0) CF_None W_None;
        Authorize Legacy (ex_req "https://evil.example/cb") W_None; Authorize Provider (ex_req "https://evil.example/cb") W_None]
   = [OLogin "/login?id="; ONone; ORedirect false "" "https://sub.example.com/cb"; OPage 400 "invalid_request"; OPage 400 ""].
 Proof. vm_compute. reflexivity. Qed.
@@ -747,7 +812,7 @@ Definition ex_req_ro (u : string) : areq :=
 Example C03_nonvacuous_request_object :
   run ex_glob ex_info true EK_Plain [ex_client] []
       [Authorize Provider (ex_req_ro "https://evil.example/cb") W_None; Authorize Legacy (ex_req_ro "https://evil.example/cb") W_None;
-       Authorize Provider (ex_req_ro "https://sub.example.com/cb") W_None; Login 0; Callback Provider (Some 0) CF_None W_None]
+       Authorize Provider (ex_req_ro "https://sub.example.com/cb") W_None; Login 0; Callback Provider (cb_get 0) CF_None W_None]
   = [OPage 400 ""; OPage 400 "invalid_request"; OLogin "/login?id="; ONone;
      ORedirect false "" "https://sub.example.com/cb"].
 Proof. vm_compute. reflexivity. Qed.
@@ -766,8 +831,8 @@ Example C03_nonvacuous_write_fault :
       [Authorize Provider (ex_req_fp "web" "https://app.example.com/cb") W_None;
        Authorize Legacy (ex_req_fp "b" "https://b.example.org/cb") W_Early;
        Login 0; Login 1;
-       Callback Provider (Some 0) CF_None W_Early; Callback Legacy (Some 1) CF_None W_None;
-       Callback Legacy (Some 0) CF_None W_Late; Callback Provider None CF_None W_Early]
+       Callback Provider (cb_get 0) CF_None W_Early; Callback Legacy (cb_get 1) CF_None W_None;
+       Callback Legacy (cb_get 0) CF_None W_Late; Callback Provider cb_none CF_None W_Early]
   = [OLogin "/login?id="; OLogin "/login?id="; ONone; ONone;
      OUndelivered; OForm "https://b.example.org/cb"; OForm "https://app.example.com/cb"; OPage 400 ""].
 Proof. vm_compute. reflexivity. Qed.
@@ -787,4 +852,26 @@ Example C03_nonvacuous_repeated_parameter :
        Authorize Provider (ex_req_dup "https://sub.example.com/cb" "https://evil.example/cb") W_None]
   = [ORedirect false "login_required" "https://sub.example.com/cb"; ORedirect false "login_required" "https://sub.example.com/cb";
      OPage 400 "invalid_request"; OPage 400 ""].
+Proof. vm_compute. reflexivity. Qed.
+
+
+(* the id of a callback in the form body, in the query, in both (the body value decides), repeated,
+   with an empty first value, absent: two finished requests of two clients, each answer goes to the
+   URI of the request that the first value names, or is an error page *)
+Example C03_nonvacuous_callback_placement :
+  run ex_glob ex_info true EK_Plain [ex_client; ex_client_b] []
+      [Authorize Provider (ex_req "https://app.example.com/cb") W_None;
+       Authorize Legacy (ex_req_fp "b" "https://b.example.org/cb") W_None;
+       Login 0; Login 1;
+       Callback Provider {| cb_body := [Some 0]; cb_query := [] |} CF_None W_None;
+       Callback Legacy {| cb_body := []; cb_query := [Some 0] |} CF_None W_None;
+       Callback Provider {| cb_body := [Some 1]; cb_query := [Some 0] |} CF_None W_None;
+       Callback Legacy {| cb_body := []; cb_query := [Some 0; Some 1] |} CF_None W_None;
+       Callback Legacy {| cb_body := [None]; cb_query := [Some 0] |} CF_None W_None;
+       Callback Provider {| cb_body := [Some 7; Some 0]; cb_query := [Some 1] |} CF_None W_None;
+       Callback Provider cb_none CF_None W_None]
+  = [OLogin "/login?id="; OLogin "/login?id="; ONone; ONone;
+     ORedirect false "" "https://app.example.com/cb"; ORedirect false "" "https://app.example.com/cb";
+     OForm "https://b.example.org/cb"; ORedirect false "" "https://app.example.com/cb";
+     OPage 400 ""; OPage 400 ""; OPage 400 ""].
 Proof. vm_compute. reflexivity. Qed.
